@@ -16,12 +16,12 @@ CONCLUSIVE_FLOOR = {"quick": 60, "thorough": 150}
 CHOL_BUILDERS = ["DensePD", "Diag", "ConstantDiag", "Identity", "CholLower", "CholUpper", "AddedDiag", "AddedConstDiag", "LowRankRootAddedDiag",
                  "PsdSum", "ConstantMulPos", "BatchRepeatPD", "KroneckerPD", "KroneckerDiag", "BlockDiag", "BlockInterleaved", "SumKronecker",
                  "KroneckerAddedConstDiag", "KroneckerAddedDiag", "KroneckerAddedKronDiag", "Root", "LowRankRoot"]
-EIG_BUILDERS = ["DenseEig", "KroneckerEig", "KroneckerAddedConstDiagEig", "KroneckerAddedKronDiagEig", "KroneckerAddedKronConstDiagEig",
+EIG_BUILDERS = ["DenseEig", "AddedConstDiagEig", "KroneckerEig", "KroneckerAddedConstDiagEig", "KroneckerAddedKronDiagEig", "KroneckerAddedKronConstDiagEig",
                 "DiagBounded", "ConstantDiagBounded", "Identity"]
 OVERRIDE_BUILDERS = ["KroneckerAddedConstDiagEig", "KroneckerAddedKronDiagEig", "KroneckerAddedKronConstDiagEig"]
 
 GROUPS_CHOL = ["cholesky", "root_cholesky", "root_inv_cholesky", "root_default"]
-GROUPS_EIG = ["eigh", "root_symeig", "root_inv_symeig", "diagonalization"]
+GROUPS_EIG = ["eigh", "root_symeig", "root_inv_symeig", "diagonalization", "direct_above_chol_size"]
 
 
 def cells(tier, seed):
@@ -111,6 +111,18 @@ def harness(ctx):
             ctx.eq(torch.linalg.eigvalsh(op), w, "torch.linalg.eigvalsh")
             w4, Q4 = op._symeig(eigenvectors=True)
             check_eigh(ctx, w4, Q4, ref, "_symeig")
+        attempt(ctx, g, chk)
+        return
+    if g == "direct_above_chol_size":
+        # the direct methods stay direct when n exceeds max_cholesky_size and the Lanczos rank bound is below n
+        def chk():
+            with settings.max_cholesky_size(0), settings.max_root_decomposition_size(1):
+                w, Q = op.eigh()
+                check_eigh(ctx, w, Q, ref, "eigh() above max_cholesky_size")
+                ctx.eq(op.eigvalsh(), w, "eigvalsh() above max_cholesky_size")
+                w2, Q2 = op.diagonalization(method="symeig")
+                check_eigh(ctx, w2, Q2, ref, "diagonalization(symeig) above max_cholesky_size")
+                check_root(ctx, op.root_decomposition(method="symeig").root, ref, "root_decomposition(symeig) above max_cholesky_size")
         attempt(ctx, g, chk)
         return
     if g == "root_symeig":
